@@ -58,6 +58,10 @@ type ModelSpec struct {
 	Tags     [4]int `json:"tags"`              // tag code per data field F0..F3
 	TimeKind int    `json:"time_kind"`         // 0: Made/Touched int64 with autoCreateTime/autoUpdateTime tags; 1: CreatedAt/UpdatedAt time.Time by naming convention
 	CTag     bool   `json:"ctime_create_only"` // create-time field additionally tagged <-:create
+	// DBDefault: every data field additionally carries a database-side
+	// default tag (default:(expr)), i.e. gorm leaves the column to the
+	// database when the Go value is zero
+	DBDefault bool `json:"db_default,omitempty"`
 	// Shape of the model type (see shape* constants)
 	Shape int `json:"shape,omitempty"`
 	// PatchTags (shapePatch): tags of the fields of the separate "patch"
@@ -264,7 +268,7 @@ func (m ModelSpec) Type() reflect.Type {
 		if dataIsString[i] {
 			ft = reflect.TypeOf("")
 		}
-		fields = append(fields, reflect.StructField{Name: fmt.Sprintf("F%d", i), Type: ft, Tag: gormTag(tagText[m.Tags[i]])})
+		fields = append(fields, reflect.StructField{Name: fmt.Sprintf("F%d", i), Type: ft, Tag: gormTag(tagText[m.Tags[i]], m.defaultTag(i))})
 	}
 	if m.Shape == shapeOverrideBaseLast {
 		fields = append(fields, base)
@@ -292,6 +296,18 @@ func (m ModelSpec) Type() reflect.Type {
 	t := reflect.StructOf(fields)
 	typeCache[m] = t
 	return t
+}
+
+// defaultTag: a default gorm cannot evaluate itself (the table itself has no
+// column default, so "left to the database" means NULL)
+func (m ModelSpec) defaultTag(i int) string {
+	if !m.DBDefault {
+		return ""
+	}
+	if dataIsString[i] {
+		return "default:(lower('DEF'))"
+	}
+	return "default:(40+2)"
 }
 
 // PatchType: the separate value type of shapePatch
@@ -325,6 +341,9 @@ func (m ModelSpec) String() string {
 		fmt.Fprintf(&sb, "; F%d %s", i, ty)
 		if m.Tags[i] != tgNone {
 			fmt.Fprintf(&sb, " `%s`", tagText[m.Tags[i]])
+		}
+		if m.DBDefault {
+			fmt.Fprintf(&sb, " `%s`", m.defaultTag(i))
 		}
 	}
 	if m.Shape == shapeOverrideBaseLast {
